@@ -28,12 +28,10 @@ func (P *extPoint) initXY(x, y *compatible.Int, c kyber.Group) {
 }
 
 func (P *extPoint) getXY() (x, y *mod.Int) {
-	P.normalize()
-	return &P.X, &P.Y
+	return P.affine()
 }
 
 func (P *extPoint) String() string {
-	P.normalize()
 	buf, _ := P.MarshalBinary()
 	return hex.EncodeToString(buf)
 }
@@ -43,8 +41,8 @@ func (P *extPoint) MarshalSize() int {
 }
 
 func (P *extPoint) MarshalBinary() ([]byte, error) {
-	P.normalize()
-	return P.c.encodePoint(&P.X, &P.Y), nil
+	x, y := P.affine()
+	return P.c.encodePoint(x, y), nil
 }
 
 func (P *extPoint) UnmarshalBinary(b []byte) error {
@@ -112,13 +110,15 @@ func (P *extPoint) EmbedLen() int {
 	return P.c.embedLen()
 }
 
-// Normalize the point's representation to Z=1.
-func (P *extPoint) normalize() {
-	P.Z.Inv(&P.Z)
-	P.X.Mul(&P.X, &P.Z)
-	P.Y.Mul(&P.Y, &P.Z)
-	P.Z.V.SetInt64(1)
-	P.T.Mul(&P.X, &P.Y)
+// affine returns the affine coordinates (X/Z, Y/Z) of the point in fresh
+// variables. The receiver is not modified, so that the read-only methods
+// (String, MarshalBinary, Data) may be used concurrently on a shared point.
+func (P *extPoint) affine() (x, y *mod.Int) {
+	var zi, ax, ay mod.Int
+	zi.Inv(&P.Z)
+	ax.Mul(&P.X, &zi)
+	ay.Mul(&P.Y, &zi)
+	return &ax, &ay
 }
 
 // Check the validity of the T coordinate
@@ -143,8 +143,8 @@ func (P *extPoint) Pick(rand cipher.Stream) kyber.Point {
 
 // Extract embedded data from a point group element
 func (P *extPoint) Data() ([]byte, error) {
-	P.normalize()
-	return P.c.data(&P.X, &P.Y)
+	x, y := P.affine()
+	return P.c.data(x, y)
 }
 
 // Add two points using optimized extended coordinate addition formulas.
